@@ -88,6 +88,28 @@ JudgeSame(r, fs, o) ==
     \o (IF SeqsOf(r, "memfs") # SeqsOf(r, "stdfs") THEN << BadT(r, fs, o, "both", "backends-differ") >> ELSE <<>>)
 JudgeT(r) == LET fs == TreeOf(r.tree)  o == Norm(OptsOf(r))  exp == Expected(fs, r.root, o) IN
   JudgeSeqs(r, fs, o, exp, 1) \o JudgeSame(r, fs, o)
+\* pre_op records: one combined event log per backend
+EvLab(e) == [p |-> e.p, d |-> e.d, f |-> e.f, l |-> e.l, e |-> e.e]
+JudgeTPSide(r, fs, o, b) ==
+  LET ev == b.ev  who == b.be
+      ys == [i \in Idx(SelectSeq(ev, LAMBDA e : e.t # "P")) |-> EvLab(SelectSeq(ev, LAMBDA e : e.t # "P")[i])]
+      ps == SelectSeq(ev, LAMBDA e : e.t = "P")
+      pbag == BagOfSeq([i \in Idx(ps) |-> ps[i].p])
+      bad(what) == << <<"BAD", "preop", who, what, IF r.fail = "" THEN "ok-preop" ELSE "failing-preop">> \o OptFlags(o) \o TreeFlags(fs) >> IN
+  IF b.o = "hang" \/ b.o = "panic" THEN bad(b.o)
+  ELSE IF b.o # "ok" THEN bad("entries: " \o b.o)
+  ELSE IF who = "stdfs" /\ ChainHit(fs, r.root, o) THEN << <<"unsettled", "follow through a link chain", who>> >>
+  ELSE IF r.fail = "" THEN
+       (IF pbag # PreOpBag(fs, r.root, o) THEN bad("not-once-per-listed-directory")
+        ELSE IF ~o.follow /\ ~PreOpFirst(ev) THEN bad("called-after-something-below-the-directory")
+        ELSE LET ks == SeqKinds(ys, fs, r.root, o) IN
+             IF ks = <<>> \/ ks = << "skip: ambiguous" >> THEN <<>> ELSE bad("yields-change-with-a-preop: " \o ks[1]))
+  ELSE IF o.follow THEN << <<"skip", "failing pre_op with follow">> >>
+  ELSE (IF ~PreOpFailStops(ev, r.fail) THEN bad("failure-not-reported-or-directory-still-listed")
+        ELSE IF ~PreOpFirst(ev) THEN bad("called-after-something-below-the-directory")
+        ELSE LET be == BagOfVisits(Emitting(Visits(fs, r.root, o)))  bs == BagOfSeq(SelectSeq(ys, LAMBDA x : x.e = "")) IN
+             IF \E x \in DOMAIN bs : CountIn(be, x) < bs[x] THEN bad("foreign-or-duplicate-yield") ELSE <<>>)
+JudgeTP(r) == LET fs == TreeOf(r.tree)  o == Norm(OptsOf(r)) IN JudgeTPSide(r, fs, o, r.sides[1]) \o JudgeTPSide(r, fs, o, r.sides[2])
 NTT(r) == IF \E i \in Idx(r.seqs) : Len(r.seqs[i].s) >= 2 THEN "nt" ELSE "tr"
 
 (* ---------------------------------- listing helpers and predicates ---------------------------------- *)
@@ -146,8 +168,8 @@ JudgeL(r) == LET fs == TreeOf(r.tree) IN
   JudgeSide(fs, r.bes[1]) \o JudgeSide(fs, r.bes[2])
   \o (IF r.bes[1].built = "t" /\ r.bes[2].built = "t" THEN JudgeBoth(fs, r.bes[1], r.bes[2], 1) ELSE <<>>)
 
-Judge(r) == IF r.k = "t" THEN JudgeT(r) ELSE JudgeL(r)
-OkClass(r) == IF r.k = "t" THEN <<"ok", "t", NTT(r)>> ELSE <<"ok", "ls", IF Len(r.tree) > 1 THEN "nt" ELSE "tr">>
+Judge(r) == IF r.k = "t" THEN JudgeT(r) ELSE IF r.k = "tp" THEN JudgeTP(r) ELSE JudgeL(r)
+OkClass(r) == IF r.k = "t" THEN <<"ok", "t", NTT(r)>> ELSE IF r.k = "tp" THEN <<"ok", "tp:" \o (IF r.fail = "" THEN "ok-preop" ELSE "failing-preop"), IF \E i \in Idx(r.sides[1].ev) : r.sides[1].ev[i].t = "P" THEN "nt" ELSE "tr">> ELSE <<"ok", "ls", IF Len(r.tree) > 1 THEN "nt" ELSE "tr">>
 
 VARIABLES l
 Init == l = 1 /\ TLCSet(1, <<>>)
